@@ -146,7 +146,7 @@ def norm_exc(e: BaseException) -> str:
 # run generation
 # --------------------------------------------------------------------------------------------
 
-BYTE_FAULTS = ["truncate", "flip_structural", "flip_any", "zero_block", "duplicate", "empty", "bom"]
+BYTE_FAULTS = ["truncate", "flip_structural", "flip_any", "zero_block", "duplicate", "empty", "bom", "toplevel", "trailing", "nan", "dupkey"]
 
 
 def gen_history(run_seed: int, tier: str) -> Dict[str, Any]:
@@ -362,6 +362,19 @@ def byte_fault(data: bytes, kind: str, r: random.Random) -> bytes:
         return b""
     if kind == "bom":
         return b"\xef\xbb\xbf" + data if r.random() < 0.5 else data.decode("utf-8").encode("utf-16")
+    if kind == "toplevel":
+        # valid JSON, but not a metamodel object at all
+        return r.choice([b"[]", b"null", b'"x"', b"0", b"true", b"{}", b"[" + data + b"]", b'{"metaModel": ' + data + b"}"])
+    if kind == "trailing":
+        return data + r.choice([b"garbage", b"{}", b"\x00", b"]", b"\n" + data])
+    if kind == "nan":
+        # Python's json accepts these non-standard literals
+        i = data.find(b'"value": ')
+        lit = r.choice([b"NaN", b"Infinity", b"-Infinity", b"1e400"])
+        return data[: i + 9] + lit + b"," + b'"simPad": 1' + data[i + 9:] if i >= 0 and r.random() < 0.3 else data.replace(b'"version": "', b'"version": ' + lit + b', "simOld": "', 1)
+    if kind == "dupkey":
+        # duplicated key in the JSON text: the last one wins in json.load
+        return data.replace(b'"metaData": {', b'"metaData": {"version": 7, ', 1) if r.random() < 0.5 else data.replace(b'"requests": [', b'"requests": "x", "requests": [', 1)
     if kind == "duplicate":
         return data + data[r.randrange(0, len(data)):] if r.random() < 0.5 else data + data
     if kind == "zero_block":
